@@ -65,6 +65,14 @@ BAD_REPLIES = {
     'status-403-braces': b'HTTP/1.1 403 {} Forbidden {0!r} %s\r\nX: {y}\r\n\r\n',
     'status-braces': b'HTTP/1.1 {} {}\r\n\r\n',
     'status-nonnumeric': b'HTTP/1.1 OK fine\r\n\r\n',
+    # not the status 200 although int() of the token is 200
+    'status-2_00': b'HTTP/1.1 2_00 OK\r\n\r\n',
+    'status-plus200': b'HTTP/1.1 +200 OK\r\n\r\n',
+    'status-0200': b'HTTP/1.1 0200 OK\r\n\r\n',
+    'status-2000': b'HTTP/1.1 2000 OK\r\n\r\n',
+    'not-http-icy': b'ICY 200 OK\r\n\r\n',
+    'not-http-binary': b'\xff\xfe\x00 200 \xff\xff\r\n\r\n',
+    'not-http-bare-lf': b'ERR\n200 lines follow\r\n\r\n',
     'garbage': b'\x00\x01\x02garbage\r\n\r\n',
     'ws-frame': F(1, b'hello') + b'\r\n\r\n',
     'empty-eof': b'',
@@ -313,6 +321,8 @@ def judge(run, w, turl, thost, tport, tsecure, purl, phost, pport, psecure, cred
     else:
         acc.count2('oracle', 'tunnel_refused')
         if names != ['connecting', 'connect_fail']:
+            if case.get('reply', '').startswith(('status-2_00', 'status-plus200', 'status-0200', 'not-http-')):
+                return 'no-connect_fail-for-failed-tunnel:answer-is-not-a-200-status-line', detail
             return 'no-connect_fail-for-failed-tunnel', detail
         if b'GET ' in wire or b'Sec-WebSocket-Key' in wire or b'Upgrade: websocket' in wire:
             return 'websocket-handshake-bytes-written-without-tunnel', detail
